@@ -18,6 +18,8 @@ def main() -> None:
     error = None
     import faulthandler
 
+    core.preload()
+
     # if this process is ever killed for running too long, its log shows where it was
     faulthandler.dump_traceback_later(max(30, spec["soft_deadline_s"]), repeat=True, file=sys.stderr)
     try:
